@@ -90,3 +90,45 @@ func init() {
 	registerRows("C04", row)
 	registerRows("C07", row)
 }
+
+// ---- C08: the timelock of a v1 signature (not of the unlock conditions)
+func init() {
+	registerRows("C08", probeRow{"T2-v1-signature-timelock", func(w *World, n *Node) {
+		sc := n.fork()
+		if !sc.v1ok() {
+			return
+		}
+		var cands []types.SiacoinElement
+		for _, e := range sc.ownedSC(true, true) {
+			if _, ai := w.ownerOf(e.SiacoinOutput.Address); ai.kind == "uc-std" || ai.kind == "uc-2of3" {
+				cands = append(cands, e)
+			}
+		}
+		e, ok := pickSC(w, cands)
+		if !ok {
+			return
+		}
+		T := sc.child() + uint64(w.tape.Range(1, 6))
+		if T+1 >= w.net.HardforkV2.RequireHeight {
+			return
+		}
+		id := e.ID
+		partial := w.tape.Chance(1, 2)
+		w.boundary(sc, "T2-v1-signature-timelock", T, func(sc *scratch) ([]types.Transaction, []types.V2Transaction, bool) {
+			cur, ok := sc.store.SC[id]
+			if !ok {
+				return nil, nil, false
+			}
+			wl, ai := w.ownerOf(cur.SiacoinOutput.Address)
+			txn := types.Transaction{SiacoinInputs: []types.SiacoinInput{{ParentID: id, UnlockConditions: *ai.uc}}, SiacoinOutputs: []types.SiacoinOutput{{Value: cur.SiacoinOutput.Value, Address: w.advAddr()}}}
+			wl.signV1(sc.s, &txn, types.Hash256(id), *ai.uc)
+			if partial {
+				w.makePartial(&txn)
+			}
+			// the last signature carries the lock: the input is not authorised before height T
+			txn.Signatures[len(txn.Signatures)-1].Timelock = T
+			wl.finishV1(sc.s, &txn, map[types.Hash256]types.UnlockConditions{types.Hash256(id): *ai.uc})
+			return []types.Transaction{txn}, nil, true
+		}, fmt.Sprintf("v1 spend of %v whose signature carries timelock %d (explicit covered fields: %v)", id, T, partial))
+	}})
+}
